@@ -353,10 +353,11 @@ class File:
         if not isinstance(obj, Section):
             raise TypeError("Object to be copied is not a Section")
 
-        if isinstance(obj._parent, Section):
-            src = "{}/{}".format("sections", obj.name)
-        else:
-            src = "{}/{}".format("metadata", obj.name)
+        # the source is the HDF5 object the handle stands for, whichever way
+        # the handle was fetched: a Section reached through a metadata link
+        # has no parent, one reached through Section.link has the linking
+        # section as its parent
+        src = obj._h5group.group
         clsname = "metadata"
         if not name:
             name = str(obj.name)
@@ -364,9 +365,9 @@ class File:
             raise NameError("Name already exist. Possible solution is to "
                             "provide a new name when copying destination "
                             "is the same as the source parent")
-        obj._parent._h5group.copy(source=src, dest=self._h5group,
-                                  name=name, cls=clsname,
-                                  shallow=not children, keep_id=keep_id)
+        obj._h5group.copy(source=src, dest=self._h5group,
+                          name=name, cls=clsname,
+                          shallow=not children, keep_id=keep_id)
 
         if not children:
             for prop in obj.props:
